@@ -19,6 +19,7 @@ package onchain
 //@ func (*BitcoinOnChain).GetFee
 //@ property C30
 //@ requires b != nil
+//@ sets ghost.lastFee = result0
 //@ ensures noerr: result1 == nil
 //@ ensures rate-selection: result0 == uint64(float64(ite(ite(ghost.estFailed || ghost.estRate == 0, int64(b.fallbackFeeRateSatPerKw), ghost.estRate) < int64(b.feeFloorSatPerKw), int64(b.feeFloorSatPerKw), ite(ghost.estFailed || ghost.estRate == 0, int64(b.fallbackFeeRateSatPerKw), ghost.estRate)) * 4) / 1000 * float64(txSize))
 //@ refute floor: (txSize >= 0 && txSize <= 1000000 && b.feeFloorSatPerKw >= 0 && b.feeFloorSatPerKw <= 1000000000 && b.fallbackFeeRateSatPerKw <= 1000000000000 && ghost.estRate <= 1000000000000) ==> result0 >= uint64(float64(int64(b.feeFloorSatPerKw) * 4) / 1000 * float64(txSize))
@@ -122,3 +123,106 @@ package onchain
 //@ property C08
 //@ requires l != nil && swapParams != nil && swapParams.BlindingKey != nil
 //@ ensures @C08 vout-of-broadcast-tx: result5 == nil ==> (ghost.liqVoutOK && ghost.liqVoutHex == result0 && ghost.liqVout == result4)
+
+// ---------------------------------------------------------------------------
+// C02: the opening script the node constructs is exactly the protocol template
+//
+//   <maker> CHECKSIG NOTIF
+//       <maker> CHECKSIG NOTIF
+//           SIZE <0x20> EQUALVERIFY SHA256 <hash> EQUALVERIFY
+//       ENDIF
+//       <taker> CHECKSIG
+//   ELSE
+//       <csv> CHECKSEQUENCEVERIFY
+//   ENDIF
+//
+// with maker / taker / hash / csv bound to the right parameters. btcd's
+// ScriptBuilder is a dependency: ASSUMED to append exactly the element it is
+// given (an opcode byte, a data push, a minimally encoded number); the ghost
+// `script` is the sequence built so far, as nested uninterpreted constructors.
+// ---------------------------------------------------------------------------
+//@ ghost script uint64
+
+//@ extern txscript NewScriptBuilder
+//@ ensures result != nil
+//@ sets ghost.script = 0
+//@ assigns nothing
+//@ extern txscript (*ScriptBuilder).AddOp
+//@ ensures result == recv
+//@ sets ghost.script = uf("thenOp", uint64(0), old(ghost.script), opcode)
+//@ assigns nothing
+//@ extern txscript (*ScriptBuilder).AddData
+//@ ensures result == recv
+//@ sets ghost.script = uf("thenData", uint64(0), old(ghost.script), hex.EncodeToString(data))
+//@ assigns nothing
+//@ extern txscript (*ScriptBuilder).AddInt64
+//@ ensures result == recv
+//@ sets ghost.script = uf("thenInt", uint64(0), old(ghost.script), val)
+//@ assigns nothing
+
+//@ extern txscript (*ScriptBuilder).Script
+//@ assigns nothing
+
+//@ define sOp(s, o) uf("thenOp", uint64(0), s, o)
+//@ define sData(s, d) uf("thenData", uint64(0), s, hex.EncodeToString(d))
+//@ define sInt(s, v) uf("thenInt", uint64(0), s, v)
+//@ define makerBranch(s, maker) sOp(sOp(sData(s, maker), uint8(172)), uint8(100))
+//@ define preimageCheck(s, hash) sOp(sData(sOp(sOp(sData(sOp(s, uint8(130)), h2b("20")), uint8(136)), uint8(168)), hash), uint8(136))
+//@ define openingTemplate(maker, taker, hash, csv) sOp(sOp(sInt(sOp(sOp(sData(sOp(preimageCheck(makerBranch(makerBranch(uint64(0), maker), maker), hash), uint8(104)), taker), uint8(172)), uint8(103)), int64(csv)), uint8(178)), uint8(104))
+
+//@ func GetOpeningTxScript
+//@ property C02
+//@ ensures @C02 is-the-template: ghost.script == openingTemplate(makerPubkeyHash, takerPubkeyHash, pHash, csv)
+
+// the keys and the hash are the hex-decoded parameters, in the right roles
+//@ func ParamsToTxScript
+//@ property C02
+//@ requires p != nil
+// on Bitcoin the script's CSV is the chain constant 1008 wherever the node rebuilds the script
+//@ requires @C02,in:openingTxHex bitcoin-validate-uses-1008: locktimeHeight == 1008
+//@ requires @C02,in:spendingAddr bitcoin-spend-uses-1008: locktimeHeight == 1008
+//@ ensures @C02 roles: result1 == nil ==> ghost.script == openingTemplate(hex.DecodeString(p.MakerPubkey), hex.DecodeString(p.TakerPubkey), hex.DecodeString(p.ClaimPaymentHash), locktimeHeight)
+
+// the CSV constants of the chains
+//@ lemma C02.csv
+//@ property C02
+//@ show bitcoin-csv: BitcoinCsv == 1008
+//@ show bitcoin-safety-limit: BitcoinCsvSafetyLimit == 504
+
+//@ func (*BitcoinOnChain).ValidateTx
+//@ property C02 C01
+//@ requires b != nil && swapParams != nil
+//@ func (*BitcoinOnChain).PrepareSpendingTransaction
+//@ property C02 C03
+//@ requires b != nil && swapParams != nil && claimParams != nil
+
+// ---------------------------------------------------------------------------
+// C03 (Bitcoin): the spending transaction PrepareSpendingTransaction builds has
+// exactly one input, which spends output `vout` of the opening transaction it
+// decoded from claimParams.OpeningTxHex with nSequence == csv, and exactly one
+// output, whose value is that output's value minus the fixed 200 sat margin and
+// the fee; the signature hash is computed for input 0 with SIGHASH_ALL over the
+// opening script of these parameters and the swap amount.
+// ---------------------------------------------------------------------------
+//@ ghost spendCsv uint32
+//@ ghost spendVout uint32
+//@ ghost spendHex string
+//@ ghost spendAddr string
+//@ ghost lastFee uint64
+//@ ghost sighashAmount int64
+//@ ghost sighashIdx int
+//@ ghost sighashType uint32
+//@ ghost sighashScript []byte
+
+//@ extern txscript CalcWitnessSigHash
+//@ sets ghost.sighashAmount = amt
+//@ sets ghost.sighashIdx = idx
+//@ sets ghost.sighashType = uint32(hType)
+//@ sets ghost.sighashScript = script
+//@ assigns nothing
+//@ extern txscript NewTxSigHashes
+//@ assigns nothing
+//@ extern txscript NewCannedPrevOutputFetcher
+//@ assigns nothing
+//@ extern btcutil DecodeAddress
+//@ assigns nothing
